@@ -273,3 +273,18 @@ Fixpoint run_history {S I O} (step : S -> I -> S * O) (s : S) (h : list I) : S :
    by a fresh configurator, and no input object was written to *)
 Definition history_ok (b_after_a b_fresh : list (string * string)) (mutated : nat) : bool :=
   files_eqb b_after_a b_fresh && Nat.eqb mutated 0.
+
+(* ------------------------------------------------------------------ settings history: the template executor.
+   A setting is [Some text] (custom template in the ConfigMap) or [None] (key absent).  State: the
+   text in use ([None] = the stock template).  As the code stands, UpdateXTemplate parses what it is
+   handed and UseOriginalX reverts: the state is the last setting. *)
+Definition exec_step (cur : option string) (s : option string) : option string := s.
+
+(* an executor that remembers the text it parsed last and skips re-parsing it; [clear_on_revert]:
+   does the revert forget the memo? *)
+Definition memo_step (clear_on_revert : bool) (st : option string * string) (s : option string)
+  : option string * string :=
+  match s with
+  | Some t => if negb (String.eqb (snd st) "") && String.eqb (snd st) t then st else (Some t, t)
+  | None => (None, if clear_on_revert then "" else snd st)
+  end.
